@@ -285,6 +285,12 @@ def run(repo: Repo, L: Ledger, tier: str):
     fin5 = ex5.run_function(tlo, st5, {tps[0]: Sym("self", ovr), tps[1]: err})
     if not fin5:
         raise AnalysisError("trim_large_overhangs: no completing path when both terminal rows overlap the bait by >= error length")
+    for r in fin5:
+        if not isinstance(r.heap[("self", "rows")], GhostList):
+            raise AnalysisError(f"{tlo.short}: self.rows is rebound to a value outside the list model: no verdict")
+        unk = [op for op, *_ in r.heap[("self", "rows")].log if op.endswith("?")]
+        if unk:
+            raise AnalysisError(f"{tlo.short}: rows are changed by an operation outside the list model ({unk}): no verdict")
     bad5 = [r for r in fin5 if r.heap[("self", "rows")].log]
     L.check(
         not bad5, "R5", tlo.short,
